@@ -134,6 +134,13 @@ def invariants(w, cfg):
                 # a complete reaper pass started after the deadline and left it open
                 bad.append(("keepalive-not-expired", "idle connection %s is still open although the keep-alive reaper ran at t=%.3f, after its deadline %.3f" % (
                     c.name, late[0], t.timeout)))
+    budget = max(cfg["worker_connections"] - cfg["threads"], 0)
+    if cfg["keepalive"] and budget == 0 and len(keep) > 0 and wk.alive:
+        # with worker_connections == threads every slot is needed for handling: no connection is parked idle, otherwise idle
+        # clients alone take the worker to its connection limit (for budgets > 0 the limit is soft: two requests finishing
+        # together may both be kept - observed on the unchanged tree and not judged)
+        bad.append(("keepalive-beyond-budget", "%d idle kept-alive connection(s), worker_connections=%d threads=%d leave room for %d" % (
+            len(keep), cfg["worker_connections"], cfg["threads"], budget)))
     for c in w.accepted:
         if c.closed and c in reg:
             bad.append(("closed-socket-registered", "closed connection %s is still registered with the poller" % c.name))
@@ -472,6 +479,7 @@ CONFIGS_QUICK = [
     # saturated configurations (connections == worker_connections is reachable): shallow, they document the capacity wedge
     ({"threads": 1, "worker_connections": 1, "keepalive": 2}, 2, 1),
     ({"threads": 1, "worker_connections": 2, "keepalive": 2}, 2, 1),
+    ({"threads": 2, "worker_connections": 2, "keepalive": 2, "menu_mode": "nopipe"}, 3, 0),
 ]
 CONFIGS_THOROUGH = [
     ({"threads": 1, "worker_connections": 3, "keepalive": 2}, 6, 1),
